@@ -156,7 +156,8 @@ def item_match(node, a):
 def item_const_true(node):
     """constant-true argument items are finding K1: unspecified"""
     if 'pos' in node:
-        return any(item_const_true(p) for p in node['pos']) and not node['neg'] or (not node['pos'])
+        # exclusions that can never hold (`! [!]`) do not make the item less constant (thorough tier, seed 21)
+        return any(item_const_true(p) for p in node['pos']) and all(item_const_false(q) for q in node['neg']) or (not node['pos'])
     n = node['name']
     name_any = n is None or n.get('w') == '*'
     v = node['value']
@@ -164,6 +165,23 @@ def item_const_true(node):
     if v is not None and 'never' in v:
         return False
     return name_any and val_any
+
+
+def word_const_false(n):
+    if n is None:
+        return False
+    if 'never' in n:
+        return True
+    if 'pos' in n:
+        return (bool(n['pos']) and all(word_const_false(p) for p in n['pos'])) or any(q.get('w') == '*' for q in n['neg'])
+    return False
+
+
+def item_const_false(node):
+    if 'pos' in node:
+        return (bool(node['pos']) and all(item_const_false(p) for p in node['pos'])) or any(item_const_true(q) for q in node['neg'])
+    v = node['value']
+    return word_const_false(node['name']) or (v is not None and 'never' in v)
 
 
 def args_match(node, args):
